@@ -130,7 +130,12 @@ Orders(kind) ==
 Traces == IF Source = "file" THEN JsonDeserialize(IOEnv.TRACE_FILE) ELSE <<>>
 ASSUME TLCSet(1, {})
 
-VARIABLES tid, F, inherit, kindA, vdoc, order,    \* configuration (fixed in Init); vdoc: extract_fields gave V a field body
+VARIABLES tid, F, inherit, kindA, vdoc, dup, order,    \* configuration (fixed in Init); vdoc: extract_fields gave V a field body
+                       \* dup (kindA = "cls"): A is a member - a nested class - of a class that is DEFINED TWICE.  The member of the
+                       \* first definition has the same text in the same place: it was parsed and reported while the module was
+                       \* built, under the qualified name A has now, then superseded.  System.handleDuplicate renames the whole
+                       \* superseded subtree AND what parse_errors holds about it: A starts like any other object - Start does
+                       \* not mention dup, and that is the specification
           i,           \* next call / event
           pd,          \* obj.parsed_docstring : "none" | "parsed" (the parser's result) | "plain" (plain text fallback)
           ps,          \* obj.parsed_summary   : "none" | "ok" | "brokensum" (get_summary gave up) | "brokenstan" (set by format_summary_fallback)
@@ -143,7 +148,7 @@ VARIABLES tid, F, inherit, kindA, vdoc, order,    \* configuration (fixed in Ini
                        \* rendered first), never read or written afterwards
           pz,          \* obj.parsed_docstring holds a half-built cached document (a to_node call on it has failed)
           res          \* results so far: sequence of [o, op, r]
-vars == <<tid, F, inherit, kindA, vdoc, order, i, pd, ps, perr, nrep, aerr, pz, lk, res>>
+vars == <<tid, F, inherit, kindA, vdoc, dup, order, i, pd, ps, perr, nrep, aerr, pz, lk, res>>
 
 \* whose faults the text rendered for o has  /  the "source": whom the pipeline reports against and passes to the fallbacks
 Text(o) == IF o = "B" /\ inherit THEN "A" ELSE o
@@ -235,16 +240,19 @@ InitEnum == /\ Source = "enum" /\ tid = 0
                  /\ (fa.lvl # "warning" \/ fa.parse = "refused" => kindA = "func") \* (a text of its own: no fields appended to it)
                  \* (quick bound: what the class shares with the function scenario is not enumerated twice)
                  /\ (kindA = "cls" /\ BMenu = "tiny" => fa.summary # "broken" /\ fa.toc \in {"none", "ok"})
+                 /\ dup \in BOOLEAN
+                 /\ (dup => kindA = "cls" /\ fa \in {NoFault, [NoFault EXCEPT !.parse = "warn"], [NoFault EXCEPT !.parse = "fatal"],
+                                                     [NoFault EXCEPT !.parse = "crash"], [NoFault EXCEPT !.tostan = "raises"]})
                  /\ vdoc = (kindA = "cls" /\ fa.parse \in {"ok", "warn"})   \* the parser's result has the field, plain text has none
                  /\ \E fb \in (IF ~inherit /\ kindA = "func" THEN BFaults ELSE {NoFault}) :     \* B inherits, or is only a neighbour
-                    \E fv \in (IF vdoc THEN VMenu ELSE {NoFault}) :
+                    \E fv \in (IF vdoc /\ ~dup THEN VMenu ELSE {NoFault}) :
                        /\ fb.ann = "ok" /\ fb.tag = "none" /\ fb.lvl = "warning"
                        \* (A's real reST text and B's real epytext text cannot live in one module: one docformat per scenario)
                        /\ ((fa.lvl # "warning" \/ fa.parse = "refused") => fb.node = "ok")
                        /\ F = [o \in Objs |-> CASE o = "A" -> fa [] o = "B" -> fb [] o = "V" -> fv]
             /\ order \in Orders(kindA)
 InitFile == /\ Source = "file" /\ tid \in 1..Len(Traces)
-            /\ inherit = Traces[tid].inherit /\ kindA = Traces[tid].kindA /\ vdoc = Traces[tid].vdoc
+            /\ inherit = Traces[tid].inherit /\ kindA = Traces[tid].kindA /\ vdoc = Traces[tid].vdoc /\ dup = FALSE
             /\ F = [o \in Objs |-> Traces[tid].F[o]]
             /\ order = <<>>
 \* the builder has run extract_fields on the class: its docstring is parsed, the @ivar field body given to V
@@ -277,7 +285,7 @@ TraceStep == /\ Source = "file" /\ i <= Len(Traces[tid].ev)
                   /\ lk = [o \in Objs |-> Ev.st.lk[o]]
                   /\ aerr = {o \in Objs : Ev.st.aerr[o]}
                   /\ Apply(Ev.o, Ev.op, out)
-Next == (Call \/ TraceStep) /\ UNCHANGED <<tid, F, inherit, kindA, vdoc, order>>
+Next == (Call \/ TraceStep) /\ UNCHANGED <<tid, F, inherit, kindA, vdoc, dup, order>>
 Spec == Init /\ [][Next]_vars
 
 \* ------------------------------------------------------------------ the property (from the statement)
@@ -330,7 +338,7 @@ FallbackCompleteOrKF == FallbackComplete \/ (KF_PoisonedCache /\ \A x \in Result
 
 \* ------------------------------------------------------------------ emission / acceptance
 DoneEnum == Source = "enum" /\ i = Len(order) + 1
-EmitTerminal == DoneEnum => PrintT(ToJson([F |-> F, inherit |-> inherit, kindA |-> kindA, vdoc |-> vdoc, res |-> res,
+EmitTerminal == DoneEnum => PrintT(ToJson([F |-> F, inherit |-> inherit, kindA |-> kindA, vdoc |-> vdoc, dup |-> dup, res |-> res,
                                            final |-> [pd |-> pd, ps |-> ps, nrep |-> nrep, pz |-> pz, lk |-> lk, aerr |-> [o \in Objs |-> o \in aerr], perr |-> [o \in Objs |-> o \in perr]]]))
 Accept == (Source = "file" /\ i = Len(Traces[tid].ev) + 1) => TLCSet(1, TLCGet(1) \cup {tid})
 Post == IF Source = "file" THEN PrintT(ToJson([accepted |-> TLCGet(1), total |-> Len(Traces)])) ELSE TRUE
